@@ -1,6 +1,6 @@
 (* C07 / C08, kernel side: a run of either scheduler loop of Model/Kernel.v is a sequence of
-   scheduler-internal moves (which touch neither the loci nor the user state and never remove a
-   live posted event) and of CALLS of event functions:
+   scheduler-internal moves (which touch neither the loci nor the user state and never add a
+   posted event) and of CALLS of event functions:
      - a stochastic / per-element event function, entered on a member of its registered locus
        at that very instant, with the handler time equal to the clock (C05);
      - a posted event function, popped from the head of the (discarded) queue.
@@ -22,21 +22,22 @@ Implicit Types s : st W.
 
 (* a scheduler-internal move *)
 Definition sched s s' : Prop :=
-  loci s' = loci s /\ world s' = world s /\ nextid s' = nextid s /\ incl (queue s') (queue s) /\
-  (forall x, In x (queue s) -> e_live x = true -> In x (queue s')).
+  loci s' = loci s /\ world s' = world s /\ nextid s' = nextid s /\ incl (queue s') (queue s).
 
 Lemma sched_refl s : sched s s.
-Proof. repeat split; try reflexivity; [apply incl_refl | auto]. Qed.
+Proof. repeat split; try reflexivity. apply incl_refl. Qed.
 
 Lemma sched_trans s1 s2 s3 : sched s1 s2 -> sched s2 s3 -> sched s1 s3.
 Proof.
-  intros (a1 & a2 & a3 & a4 & a5) (b1 & b2 & b3 & b4 & b5). repeat split; try congruence.
-  - eapply incl_tran; eassumption.
-  - intros x Hx Hl. apply b5; [apply a5; assumption | exact Hl].
+  intros (a1 & a2 & a3 & a4) (b1 & b2 & b3 & b4). repeat split; try congruence.
+  eapply incl_tran; eassumption.
 Qed.
 
 Lemma sched_same s s' : loci s' = loci s -> world s' = world s -> nextid s' = nextid s -> queue s' = queue s -> sched s s'.
-Proof. intros H1 H2 H3 H4. repeat split; try assumption; rewrite H4; [apply incl_refl | auto]. Qed.
+Proof.
+  intros H1 H2 H3 H4. split; [exact H1|]. split; [exact H2|]. split; [exact H3|]. rewrite H4.
+  apply incl_refl.
+Qed.
 
 Lemma sched_advance a b c s : sched s (advance a b c s).
 Proof. apply sched_same; reflexivity. Qed.
@@ -48,9 +49,7 @@ Lemma sched_emit o s : sched s (emit o s).
 Proof. apply sched_same; reflexivity. Qed.
 Lemma sched_discard s : sched s (discard s).
 Proof.
-  unfold discard. repeat split; try reflexivity; cbn [queue set_queue].
-  - apply discard_dead_incl.
-  - intros x Hx Hl. apply discard_dead_keeps_live; assumption.
+  unfold discard. repeat split; try reflexivity; cbn [queue set_queue]. apply discard_dead_incl.
 Qed.
 
 (* the state an event function entered by call c on s leaves behind (tap included) *)
@@ -136,7 +135,7 @@ Proof.
         destruct (IH _ _ _ _ _ _ E _ _ H1) as [c2 H2]. exists (c1 ++ c2). rewrite app_assoc. exact H2.
       * inversion E; subst. exists []. rewrite app_nil_r. exact Hd.
     + destruct (stoch_select tb s) as [[[x dt] s3]|] eqn:Es.
-      * destruct (stoch_select_shape tb s x dt s3 Es) as [Hx [nr [_ ->]]].
+      * destruct (stoch_select_shape tb s x dt s3 Es) as [Hx [nr [_ ->]]]. cbv zeta in E.
         assert (H3 : Steps s0 cs (advance nr 1 0 s)) by (eapply st_sched; [exact H | apply sched_advance]).
         destruct (run_pending tb pf (Qred (t + dt)) 0 (advance nr 1 0 s)) as [n s4] eqn:Ep.
         destruct (run_pending_steps _ _ _ _ _ _ Ep _ _ H3) as [c1 H1].
@@ -154,7 +153,7 @@ Proof.
            cbn [after] in H7.
            destruct (IH _ _ _ _ _ _ E _ _ H7) as [c2 H2].
            exists (c1 ++ (advance 0 0 1 s5, CEv x (Qred (t + dt)) e) :: c2).
-           rewrite <- !app_assoc in H2. rewrite <- app_assoc. exact H2.
+           rewrite <- !app_assoc in H2. exact H2.
       * inversion E; subst. exists []. rewrite app_nil_r. eapply st_sched; [exact H | apply sched_set_stuck].
 Qed.
 
@@ -199,7 +198,7 @@ Proof.
     { eapply Forall_impl; [|exact Hsel]. intros xe Hxe. exact (proj1 Hxe). }
     destruct (fire_tranche_steps _ _ _ _ _ _ Ef Hall eq_refl _ _ H2) as [c2 [H3 _]].
     destruct (IH _ _ _ _ _ _ _ _ E _ _ H3) as [c3 H4]. exists (c1 ++ c2 ++ c3).
-    rewrite !app_assoc. rewrite !app_assoc in H4. exact H4.
+    rewrite <- !app_assoc in H4. exact H4.
 Qed.
 
 (* ------------------------------------------------------------------ whole runs *)
